@@ -160,6 +160,7 @@ func verifHeapRemove(i int) *tssItem { return heap.Remove(&tssQ, i).(*tssItem) }
 //@   noframe
 //@   requires conn != nil && conn.c != nil && log != nil
 //@   loop 0 invariant capof(buf) == 98 && offsetof(buf) == 0 && capof(oob) == 64 && offsetof(oob) == 0
+//@   callsite conn.c.ReadMsgUDPAddrPort 0 requires len(buf) == 98 && len(oob) == 64
 
 // ---- the IP listener: one iteration of the receive loop per datagram ----
 // lastpkt() is the datagram as received, lastsent() the datagram handed to the socket, calls(...) counts socket calls.
@@ -173,6 +174,10 @@ func verifHeapRemove(i int) *tssItem { return heap.Remove(&tssQ, i).(*tssItem) }
 //@   noframe
 //@   requires conn != nil && provider != nil && log != nil && mtrcs != nil
 //@   callsite ntp.DecodePacket 0 scope len(buf) <= 48
+// Every read offers the whole receive buffers: a datagram dropped earlier must not shrink what the next one may use
+// ("the next well-formed request on the same socket is still answered").
+//@   loop 0 invariant capof(buf) == 2048 && capof(oob) == 64
+//@   callsite conn.ReadMsgUDPAddrPort 0 requires len(buf) == 2048 && len(oob) == 64
 //@   loop 0 iterensures once: mathint(calls("UDPConn.WriteToUDPAddrPort")) <= mathint(prev(calls("UDPConn.WriteToUDPAddrPort")))+1
 //@   loop 0 iterensures silent: !wellFormedHeader(lastpkt()) ==> calls("UDPConn.WriteToUDPAddrPort") == prev(calls("UDPConn.WriteToUDPAddrPort"))
 //@   loop 0 iterensures answered: lastreadok() && wellFormedHeader(lastpkt()) ==> mathint(calls("UDPConn.WriteToUDPAddrPort")) == mathint(prev(calls("UDPConn.WriteToUDPAddrPort")))+1
@@ -189,6 +194,8 @@ func verifHeapRemove(i int) *tssItem { return heap.Remove(&tssQ, i).(*tssItem) }
 //@   requires slayers.LayerTypeSCIONUDP != slayers.LayerTypeSCMP
 //@   noerror buffer.Clear, payload.SerializeTo, scmpLayer.SerializeTo, scionLayer.SerializeTo, udpLayer.SerializeTo, e2eLayer.SerializeTo, e2eExtn.SerializeTo, spao.ComputeAuthCMAC, scion.DeriveHostHostKey
 //@   callsite ntp.DecodePacket 0 scope len(udpLayer.Payload) <= 48
+//@   loop 0 invariant capof(buf) == scion.MTU && capof(oob) == 64
+//@   callsite conn.ReadMsgUDPAddrPort 0 requires len(buf) == scion.MTU && len(oob) == 64
 // Per received packet at most one packet is written, and a request is handled (and then answered) only if the UDP
 // payload is a well-formed NTP request addressed to the listener's port.
 //@   loop 0 iterensures once: mathint(calls("UDPConn.WriteToUDPAddrPort")) <= mathint(prev(calls("UDPConn.WriteToUDPAddrPort")))+1
